@@ -9,4 +9,7 @@ for id in "$@"; do
   (cd /verif && VERIF_NO_SELFTEST=1 ./run.sh "$id" quick 2>&1 | grep -v "selftest" | tail -12)
 done
 git -C /repo checkout -- .
-# restore evidence for the unchanged tree is the caller's job
+# restore the evidence files for the unchanged tree
+for id in "$@"; do
+  (cd /verif && VERIF_NO_SELFTEST= ./run.sh "$id" quick >/dev/null 2>&1 || echo "WARNING: $id fails on the unchanged tree")
+done
